@@ -397,7 +397,7 @@ theorem step_live (c : Cur) (r : Rd) (op : ROp) (habs : Abs c r) (hs : r.Small o
         simp only [List.length_nil, Nat.add_zero] at hl1
         omega
     simp [Rd.step, hn, liveOk, this]
-  | release =>
+  | release e =>
     have := release_frame r
     exact ⟨by simpa [Rd.step] using hl.frame this.1 this.2, by simp [liveOk]⟩
   | readLen =>
